@@ -76,6 +76,7 @@ var (
 	errReadBadRequest           = errors.New("ntske received bad request error message")
 	errReadUnrecognisedCritical = errors.New("ntske received unrecognized critical error message")
 	errReadUnknown              = errors.New("ntske received unknown error message")
+	errReadBodyLen              = errors.New("ntske received record with unexpected body length")
 )
 
 // RecordHdr is the header on all records exchanged in NTS-KE.
@@ -320,19 +321,19 @@ func ReadData(ctx context.Context, log *slog.Logger, reader *bufio.Reader, data 
 			return nil
 
 		case RecNextproto:
-			var nextProto uint16
-			err := binary.Read(reader, binary.BigEndian, &nextProto)
+			_, _, err := readFirstUint16(reader, msg.BodyLen)
 			if err != nil {
 				return err
 			}
 
 		case RecAead:
-			var aead uint16
-			err := binary.Read(reader, binary.BigEndian, &aead)
+			aead, ok, err := readFirstUint16(reader, msg.BodyLen)
 			if err != nil {
 				return err
 			}
-			data.Algo = aead
+			if ok {
+				data.Algo = aead
+			}
 
 		case RecCookie:
 			cookie := make([]byte, msg.BodyLen)
@@ -352,16 +353,22 @@ func ReadData(ctx context.Context, log *slog.Logger, reader *bufio.Reader, data 
 			data.Server = string(address)
 
 		case RecPort:
-			err := binary.Read(reader, binary.BigEndian, &data.Port)
+			port, ok, err := readFirstUint16(reader, msg.BodyLen)
 			if err != nil {
 				return err
 			}
+			if !ok || msg.BodyLen != 2 {
+				return errReadBodyLen
+			}
+			data.Port = port
 
 		case RecError:
-			var code uint16
-			err := binary.Read(reader, binary.BigEndian, &code)
+			code, ok, err := readFirstUint16(reader, msg.BodyLen)
 			if err != nil {
 				return err
+			}
+			if !ok {
+				return errReadUnknown
 			}
 			if code == ErrorCodeUnrecognizedCritical {
 				return errReadUnrecognisedCritical
@@ -385,6 +392,21 @@ func ReadData(ctx context.Context, log *slog.Logger, reader *bufio.Reader, data 
 			}
 		}
 	}
+}
+
+// readFirstUint16 consumes a record body of bodyLen octets that holds a list
+// of 16-bit values and returns the first of them, if there is one. Consuming
+// the whole body keeps the record boundaries whatever length the peer declared.
+func readFirstUint16(reader *bufio.Reader, bodyLen uint16) (uint16, bool, error) {
+	body := make([]byte, bodyLen)
+	_, err := io.ReadFull(reader, body)
+	if err != nil {
+		return 0, false, err
+	}
+	if len(body) < 2 {
+		return 0, false, nil
+	}
+	return binary.BigEndian.Uint16(body), true, nil
 }
 
 func setBit(n uint16, pos uint) uint16 {
